@@ -551,7 +551,7 @@ func serverPart(r *vh.Run) {
 			defer func() { r.Max("wall_ms_server_"+string(kind), time.Since(t0).Milliseconds()) }()
 			versionAndCapsMatrix(r, kind, nRandom)
 			registrationBetweenSessions(r, kind)
-			registrationHistories(r, kind, r.Pick(120, 600))
+			registrationHistories(r, kind, r.Pick(120, 400))
 			if kind.IsStreamable() {
 				concurrentRegistration(r, kind, r.Pick(4, 20), 8, 20)
 			}
